@@ -369,7 +369,8 @@ def _map_clone(eng, st, fr, t, args, dest, target):
     return deref(eng, st, args[0])
 
 
-@model('std::collections::HashMap::<K, V, S, A>::iter', 'std::collections::BTreeMap::<K, V, A>::iter')
+@model('std::collections::HashMap::<K, V, S, A>::iter', 'std::collections::BTreeMap::<K, V, A>::iter',
+       'std::collections::HashMap::<K, V, S, A>::iter_mut', 'std::collections::BTreeMap::<K, V, A>::iter_mut')
 def _map_iter(eng, st, fr, t, args, dest, target):
     r, p = ptr_of(eng, st, args[0])
     return ('iter', 'map', mk_ref(r, p))
@@ -613,6 +614,9 @@ for _n in ('<std::iter::Take<I> as std::iter::Iterator>::next',
            '<std::iter::Enumerate<I> as std::iter::Iterator>::next',
            '<std::iter::Rev<I> as std::iter::Iterator>::next',
            '<std::collections::hash_map::Iter<\'a, K, V> as std::iter::Iterator>::next',
+           '<std::collections::hash_map::IterMut<\'a, K, V> as std::iter::Iterator>::next',
+           '<std::collections::btree_map::Iter<\'a, K, V> as std::iter::Iterator>::next',
+           '<std::collections::btree_map::IterMut<\'a, K, V> as std::iter::Iterator>::next',
            'std::iter::Iterator::next'):
     MODELS[_n] = _next_generic
 
